@@ -83,10 +83,11 @@ def _seed_worker(args):
     import re
     import shutil
     import subprocess
-    pid, root, sid = args
+    pid, root, sid = args[:3]
+    kind = args[3] if len(args) > 3 else "seed"       # "seed": must be reported; "refactor": must stay silent
     os.environ["HSA_REPO"] = root
     mod = load_prop(pid)
-    patch = os.path.join(str(report.VERIF), "seeded", sid, "patch.diff")
+    patch = os.path.join(str(report.VERIF), "seeded" if kind == "seed" else "refactors", sid, "patch.diff")
     scratch = None
     try:
         text = open(patch).read()
@@ -98,15 +99,15 @@ def _seed_worker(args):
         scratch = make_scratch(root, rewritten)
         r = subprocess.run(["git", "apply", "-p1", patch], cwd=str(scratch), capture_output=True, text=True)
         if r.returncode != 0:
-            return {"variant": "seed " + sid, "twin": False, "status": "skipped",
+            return {"variant": kind + " " + sid, "twin": kind != "seed", "status": "skipped",
                     "why": "patch does not apply to the current tree: " + r.stderr.strip()[:120], "expect": [pid]}
         repo = Repo(scratch)
         obs, _summary, errors = run_rules(mod, repo, None)
         keys = sorted({(o.rule, o.key) for o in obs if not o.ok})
-        return {"variant": "seed " + sid, "twin": False, "status": "ran", "fired": sorted({k[0] for k in keys}),
-                "keys": keys, "errors": [list(e) for e in errors], "expect": ["*"]}
+        return {"variant": kind + " " + sid, "twin": kind != "seed", "status": "ran", "fired": sorted({k[0] for k in keys}),
+                "keys": keys, "errors": [list(e) for e in errors], "expect": ["*"] if kind == "seed" else None}
     except Exception as e:
-        return {"variant": "seed " + sid, "twin": False, "status": "crashed", "why": repr(e), "expect": [pid]}
+        return {"variant": kind + " " + sid, "twin": kind != "seed", "status": "crashed", "why": repr(e), "expect": [pid]}
     finally:
         if scratch is not None:
             drop_scratch(scratch)
@@ -122,6 +123,22 @@ def _seeds_for(pid):
             continue
         if pid in m.get("detected_by", []):
             out.append(m["seed"])
+    return out
+
+
+def _refactors_for(pid):
+    """kept behaviour-preserving refactorings (refactors/<id>) of the code of this property, and every one that ever
+    made this property's check answer non-zero: replayed as twins (must stay silent)"""
+    import glob
+    out = []
+    for mp in sorted(glob.glob(os.path.join(str(report.VERIF), "refactors", "*", "meta.json"))):
+        try:
+            m = json.load(open(mp))
+        except ValueError:
+            continue
+        fp = m.get("first_pass", {})
+        if m.get("property") == pid or pid in fp.get("violation_in", []) + fp.get("analysis_error_in", []):
+            out.append(m["refactor"])
     return out
 
 
@@ -186,10 +203,13 @@ def run_variants(pid, mod, root, baseline_keys, seed):
     order = list(range(len(vs)))
     results = []
     seeds = _seeds_for(pid)
-    with ProcessPoolExecutor(max_workers=min(16, len(vs) + len(seeds))) as ex:
+    refs = _refactors_for(pid)
+    with ProcessPoolExecutor(max_workers=min(16, len(vs) + len(seeds) + len(refs))) as ex:
         for r in ex.map(_variant_worker, [(pid, str(root), i) for i in order]):
             results.append(r)
         for r in ex.map(_seed_worker, [(pid, str(root), sid) for sid in seeds]):
+            results.append(r)
+        for r in ex.map(_seed_worker, [(pid, str(root), rid, "refactor") for rid in refs]):
             results.append(r)
     problems = []
     for r in results:
